@@ -6,6 +6,8 @@ import (
 	"fmt"
 
 	"github.com/jsightapi/jsight-schema-go-library/fs"
+	"github.com/jsightapi/jsight-schema-go-library/notations/jschema"
+	"github.com/jsightapi/jsight-schema-go-library/rules/enum"
 
 	"github.com/jsightapi/jsight-api-go-library/jerr"
 	"github.com/jsightapi/jsight-api-go-library/scanner"
@@ -26,8 +28,33 @@ type lexObs struct {
 	Panic  string          `json:"panic,omitempty"`
 	Frames []string        `json:"frames,omitempty"`
 	Len    int             `json:"len"`
+	Orc    [][2]int        `json:"orc"` // schema library's own length for every schema / enum lexeme begin
 	Final  string          `json:"final,omitempty"`
 	Stack  []string        `json:"stack,omitempty"`
+}
+
+// libLen asks the schema library itself how long the value starting at pos is (-1 = error).
+func libLen(data []byte, pos int, isEnum bool) (n int) {
+	defer func() {
+		if recover() != nil {
+			n = -1
+		}
+	}()
+	if pos < 0 || pos > len(data) {
+		return -1
+	}
+	f := fs.NewFile("", data[pos:])
+	var l uint
+	var err error
+	if isEnum {
+		l, err = enum.FromFile(f).Len()
+	} else {
+		l, err = jschema.FromFile(f).Len()
+	}
+	if err != nil {
+		return -1
+	}
+	return int(l)
 }
 
 func cmdLex(line []byte, emit func(interface{})) {
@@ -42,7 +69,7 @@ func cmdLex(line []byte, emit func(interface{})) {
 		return
 	}
 	emit(map[string]string{"begin": c.ID})
-	o := &lexObs{ID: c.ID, ErrIdx: -1, Len: len(data), Lex: [][3]int{}}
+	o := &lexObs{ID: c.ID, ErrIdx: -1, Len: len(data), Lex: [][3]int{}, Orc: [][2]int{}}
 	func() {
 		defer func() {
 			if r := recover(); r != nil {
@@ -64,6 +91,9 @@ func cmdLex(line []byte, emit func(interface{})) {
 				break
 			}
 			o.Lex = append(o.Lex, [3]int{int(lx.Type()), int(lx.Begin()), int(lx.End())})
+			if lx.Type() == scanner.Schema || lx.Type() == scanner.Enum {
+				o.Orc = append(o.Orc, [2]int{int(lx.Begin()), libLen(data, int(lx.Begin()), lx.Type() == scanner.Enum)})
+			}
 			if c.Steps {
 				o.Steps = append(o.Steps, []interface{}{s.VerifStepName(), len(s.VerifStepStack()), int(s.CurrentIndex())})
 			}
